@@ -425,6 +425,10 @@ func (s *Spec) inboundOp(in inbound) explore.Op {
 			denom = scen.TransferPort + "/" + p.R + "/tkn"
 		case "junk":
 			denom = junkBase
+		case "fakefx":
+			denom = fxtypes.DefaultDenom // a foreign chain's coin that happens to be spelled like the native coin
+		case "fakefx2":
+			denom = scen.TransferPort + "/channel-77/" + fxtypes.DefaultDenom // the same after one more hop
 		}
 		sender := s.senders()[in.From]
 		data := transfertypes.NewFungibleTokenPacketData(denom, fmt.Sprint(inAmt), sender, recv, s.memo(in.Memo))
@@ -464,7 +468,7 @@ func (s *Spec) inboundOp(in inbound) explore.Op {
 		switch {
 		case in.Denom == "fxret":
 			wantBank[target.Bech()+"|"+fxtypes.DefaultDenom] = inAmt
-		case in.Denom == "junk":
+		case in.Denom == "junk" || in.Denom == "fakefx" || in.Denom == "fakefx2":
 			c.Violate("credited-as-erc20", sig("success-ack-for-unregistered-denom"), what+": no token pair exists for the received denom, so nothing can have been credited as ERC-20")
 			return
 		case in.Recv == "hex":
@@ -698,6 +702,9 @@ func (s *Spec) Ops(st *explore.State) []explore.Op {
 		ops = append(ops, s.inboundOp(inbound{1, "tknret", "hex", "call", 0}))
 		ops = append(ops, s.inboundOp(inbound{1, "tknret", "hex", "call", 1}))
 		ops = append(ops, s.inboundOp(inbound{1, "fxret", "hex", "none", 0}))
+		for _, d := range []string{"fakefx", "fakefx2"} {
+			ops = append(ops, s.inboundOp(inbound{0, d, "hex", "none", 0}), s.inboundOp(inbound{0, d, "bech", "none", 0}), s.inboundOp(inbound{0, d, "hex", "call", 0}))
+		}
 	}
 	if s.Mode == "mixed" {
 		ops = append(ops, s.inboundOp(inbound{0, "tknret", "hex", "none", 0}))
